@@ -11,7 +11,7 @@ from ..common import MachineryError, ensure_repo_on_path
 
 MANIFEST = {
     "engine": "S5-Fem",
-    "technique": "TLA+ model of the permutation codes (FacetPerm.tla: valid code pairs per numbering pair, computed by TLC on lattice points, shown to be a bijection) + exact oracle Fem.tla for the canonical numbering; real kernels run on every renumbering with every valid code pair and compared with the relabelled exact tensor",
+    "technique": "TLA+ model of the permutation codes (FacetPerm.tla: valid code pairs per numbering pair, computed by TLC on lattice points, shown to be a bijection) + exact oracle Fem.tla for the canonical numbering; real kernels run on every renumbering with every valid code pair and compared with the relabelled exact tensor; plus S7: TLA+ model of the element-table pipeline (TableOpt.tla, exhaustively checked) bound to the real pipeline by injected tables (perm scope), records judged by TLC",
     "text": "Two cells that share a facet are renumbered by every pair of reference-cell symmetries (all 4 interval and 36 triangle pairs; seeded "
             "samples of the 576 tetrahedron, 64 quadrilateral and 2304 hexahedron pairs in the quick tier, all/large samples in the thorough tier). "
             "For each pair FacetPerm.tla computes with TLC the set of permutation-code pairs (rotations = N div 2, reflections = N mod 2) under which "
